@@ -10,6 +10,8 @@ One JSON object per input line, one per output line.  State: the current parser.
   {"op":"common","cfg":NS}    links + required
   {"op":"strip","cfg":NS}
   {"op":"dumpkeys","cfg":NS}
+  {"op":"history","ops":[{"link":{"sources":..,"coerce":..,"target":..,"fn":..}} | {"parse":[inputs],"epoch":n}, ...]}
+                              the model's `runOps` on the current parser (which becomes `stateAfter`)
 
 Values: null, integers, arrays (lists), {"t":[..]} tuples, {"d":[[k,v]..]} dicts, {"n":[[k,v]..]} namespaces.
 Strings and other opaque Python values travel as dicts with one `$`-key (see harness/props/c15.py).
@@ -17,6 +19,7 @@ Strings and other opaque Python values travel as dicts with one `$`-key (see har
 import Lean.Data.Json
 import Jap.Core.Links
 import Jap.Core.LinksTree
+import Jap.Core.LinksHist
 
 open Lean Jap.NS Jap.Links
 
@@ -81,6 +84,24 @@ def leafInts : KV → List V
 
 def upperCode (c : Int) : Int := if 97 ≤ c && c ≤ 122 then c - 32 else c
 
+def strV (s : String) : V := .dct [(strTag, .lst (s.toList.map fun c => V.atom c.toNat))]
+
+/-- `type(x).__name__` of a wire value -/
+def tyName : V → String
+  | .none => "NoneType"
+  | .atom _ => "int"
+  | .lst _ => "list"
+  | .tup _ => "tuple"
+  | .ns _ => "Namespace"
+  | .dct [(k, v)] =>
+    if k.name = "$b" then "bool" else if k.name = "$s" then "str" else if k.name = "$f" then "float"
+    else if k.name = "$o" then
+      match v with
+      | .lst cs => String.ofList (cs.map fun c => match c with | .atom a => Char.ofNat a.toNat | _ => '?')
+      | _ => "dict"
+    else "dict"
+  | .dct _ => "dict"
+
 def fnTable (n : Nat) (args : List V) : Option V :=
   match n, args with
   | 0, [x] => some x                                        -- lambda x: x
@@ -104,10 +125,21 @@ def fnTable (n : Nat) (args : List V) : Option V :=
   | 10, [.dct _] => some (.atom 2)
   | 10, [_] => some (.atom 0)
   | 11, [.atom a, .atom b] => some (.atom (a * 10 + b))     -- lambda a, b: 10 * a + b   (argument order)
+  | 12, xs => some (.lst (xs.map fun x => .lst [strV (tyName x), x]))   -- lambda *a: [[type(x).__name__, x] for x in a]
+  | 13, [x] => some (strV (tyName x))                       -- lambda x: type(x).__name__
+  | 14, [.atom a] => some (.atom a)                         -- lambda x: x + EPOCH   (EPOCH = 0; see `envAt`)
   | _, _ => none
+
+/-- the compute functions in the state of the world `e`: function 14 reads `EPOCH = e` -/
+def fnTableAt (e : Nat) (n : Nat) (args : List V) : Option V :=
+  match n, args with
+  | 14, [.atom a] => some (.atom (a + e))
+  | _, _ => fnTable n args
 
 /-- type checks are parameters of the model: the harness compares well-typed cases only -/
 def env : Env := { F := fnTable, chk := fun _ _ => true, valid := fun _ => true }
+
+def envAt (e : Nat) : Env := { F := fnTableAt e, chk := fun _ _ => true, valid := fun _ => true }
 
 def getStr (j : Json) (k : String) : String :=
   match j.getObjVal? k with
@@ -240,6 +272,29 @@ def step (st : St) (j : Json) : Json × St :=
       | .arr #[.str c, .str k, v] => (⟨chanOf c, keyOf k, (vOfJson v).toOption.getD .none⟩ : Input)
       | _ => ⟨.argv, [], .none⟩
     (resKV (parse env p ins), st)
+  | "history" =>
+    let ops := (getArr j "ops").map fun o =>
+      match o.getObjVal? "link" with
+      | .ok l =>
+        let srcs := (getArr l "sources").map fun s => match s with | .str s => keyOf s | _ => []
+        let co := (getArr l "coerce").map fun b => match b with | .bool b => b | _ => false
+        let fn := match l.getObjVal? "fn" with
+          | .ok (.num n) => some n.mantissa.toNat
+          | _ => none
+        Op.link ⟨srcs, co, keyOf (getStr l "target"), fn⟩
+      | .error _ =>
+        let ins := (getArr o "parse").map fun i =>
+          match i with
+          | .arr #[.str c, .str k, v] => (⟨chanOf c, keyOf k, (vOfJson v).toOption.getD .none⟩ : Input)
+          | _ => ⟨.argv, [], .none⟩
+        let e := match o.getObjVal? "epoch" with | .ok (.num n) => n.mantissa.toNat | _ => 0
+        Op.parse e ins
+    let outs := (runOps envAt p ops).map fun o =>
+      match o with
+      | .linked (.ok p') => Json.mkObj [("r", "ok"), ("parser", parserJson p')]
+      | .linked (.error e) => Json.mkObj [("r", "ValueError"), ("why", .str (lerrStr e))]
+      | .parsed r => resKV r
+    (Json.mkObj [("outs", .arr outs.toArray)], { st with p := stateAfter envAt p ops })
   | "apply" => (resKV (applyParsingLinks env p.links (getKV j "cfg")), st)
   | "common" => (resKV (parseCommon env p (getKV j "cfg")), st)
   | "strip" => (Json.mkObj [("s", vToJson (.ns (stripLinkTargetKeys p (getKV j "cfg"))))], st)
